@@ -212,11 +212,12 @@ PROPS = {
         modules=['Pbc.Props.C07', 'Pbc.Props.C07b'],
         theorems=['Pbc.Props.C07.freeMsg_log', 'Pbc.Props.C07.freeVal_log', 'Pbc.Props.C07.freeSlots_log',
                   'Pbc.Props.C07.foldl_free_log', 'Pbc.Props.C07.first_alloc_refused',
-                  # whole-call accounting for every input and refusal schedule (messages without embedded messages)
+                  # whole-call accounting for every input and refusal schedule (embedded messages as repeated fields, any depth)
                   'Pbc.Props.C07.acct_freeMsg', 'Pbc.Props.C07.parseRequiredH_acct', 'Pbc.Props.C07.oneofH_acct',
                   'Pbc.Props.C07.parseMemberH_oneof', 'Pbc.Props.C07.parseMemberH_plain', 'Pbc.Props.C07.parseMemberH_acct',
                   'Pbc.Props.C07.parseAllH_acct', 'Pbc.Props.C07.scanLoopH_acct', 'Pbc.Props.C07.allocArrays_acct',
-                  'Pbc.Props.C07.unpackMsgH_eq', 'Pbc.Props.C07.unpackMsgH_acct', 'Pbc.Props.C07.unpack_fails_clean',
+                  'Pbc.Props.C07.unpackMsgH_eq', 'Pbc.Props.C07.parseRequiredH_elem_acct', 'Pbc.Props.C07.unpackMsgH_acct_step',
+                  'Pbc.Props.C07.unpackMsgH_acct', 'Pbc.Props.C07.unpack_fails_clean',
                   'Pbc.Props.C07.unpack_then_free_clean'],
         refine=[],
         cases=[('alloc', 400, 6000, [])],
@@ -230,7 +231,8 @@ PROPS = {
                   'Pbc.Props.C07.acct_freeMsg', 'Pbc.Props.C07.parseRequiredH_acct', 'Pbc.Props.C07.oneofH_acct',
                   'Pbc.Props.C07.parseMemberH_oneof', 'Pbc.Props.C07.parseMemberH_plain', 'Pbc.Props.C07.parseMemberH_acct',
                   'Pbc.Props.C07.parseAllH_acct', 'Pbc.Props.C07.scanLoopH_acct', 'Pbc.Props.C07.allocArrays_acct',
-                  'Pbc.Props.C07.unpackMsgH_eq', 'Pbc.Props.C07.unpackMsgH_acct', 'Pbc.Props.C07.unpack_fails_clean',
+                  'Pbc.Props.C07.unpackMsgH_eq', 'Pbc.Props.C07.parseRequiredH_elem_acct', 'Pbc.Props.C07.unpackMsgH_acct_step',
+                  'Pbc.Props.C07.unpackMsgH_acct', 'Pbc.Props.C07.unpack_fails_clean',
                   'Pbc.Props.C07.unpack_then_free_clean'],
         refine=[],
         cases=[('fault', 40, 400, []), ('append', 100, 1000, [])],
